@@ -7,7 +7,7 @@
    APPX mutate  <signed> <k> {<pos>:<byte>}*k <tab>*                   verifier on one-byte mutants (signed streams = the
                                                                        unmutated package's)
    <tab>: I:<compd>:<plain> (inflate)  PX:<plain> (not a PE)  MX:<plain> / CX:<plain> (manifest / content types do not
-          parse)  B:<xml>:<name,size,size;…> (parsed block map)                                                         -/
+          parse)  B:<xml>:<name,size,size;…> (parsed block map)  F41 (the source carries the repair of F41)                                                         -/
 import Relic.Model.Appx
 import Relic.Spec.AppxDigest
 import Relic.Driver.C17
@@ -35,6 +35,7 @@ structure Tab where
   mx : List Bytes := []
   cx : List Bytes := []
   bm : List (Bytes × List (Bytes × List Nat)) := []
+  f41 : Bool := false
 
 def parseBmData (s : String) : Option (List (Bytes × List Nat)) :=
   if s = "-" then some [] else
@@ -55,6 +56,7 @@ def parseTab : List String → Tab → Option Tab
     | ["MX", a] => do parseTab rest { t with mx := (← unhex a) :: t.mx }
     | ["CX", a] => do parseTab rest { t with cx := (← unhex a) :: t.cx }
     | ["B", a, d] => do parseTab rest { t with bm := t.bm ++ [(← unhex a, ← parseBmData d)] }
+    | ["F41"] => parseTab rest { t with f41 := true }      -- the source carries the repair of F41 (harness/appx reads it from blockmap.go)
     | _ => none
 
 def codecOf (t : Tab) : Codec :=
@@ -62,7 +64,8 @@ def codecOf (t : Tab) : Codec :=
     peOk := fun p => !t.px.contains p,
     manifestOk := fun p => !t.mx.contains p,
     ctypesOk := fun p => !t.cx.contains p,
-    blockMap := fun x => (t.bm.find? fun e => e.1 == x).map (·.2) }
+    blockMap := fun x => (t.bm.find? fun e => e.1 == x).map (·.2),
+    f41 := t.f41 }
 
 def resTag {α} : Res α → String
   | .ok _ => "ok"
